@@ -11,6 +11,7 @@ Line-protocol front end of the C11 model.
 * `C11.run  <dir>;<dir>;…`        general lines, fields separated by `:`, tokens by one space:
     `i:<cond>` `d:<name>` `n:<name>` `e:<cond>` `l` `f` `t:<tokens>` `D:<name>:<body>` `U:<name>`
     `P:once|warning|unknown` `I:<tokens of the included line>` `I!` (file missing) `X` (unknown command)
+    `N` (`#3`: a directive that does not start with a name)
 * `C11.cond <defs>  <cond>`       `defs` = `name=body,name=body`; the value of `#if <cond>`.
 
 Token spelling: `|| && == != < <~ > >~ = ! ( ) true false 123 123u name`; `<~`/`>~` = angle bracket
@@ -75,6 +76,8 @@ def showErr : Err → String
   | .chain .ElseNotMatched => "ElseNotMatched"
   | .chain .EndIfNotMatched => "EndIfNotMatched"
   | .chain .ConditionChainNotFinished => "ConditionChainNotFinished"
+  | .chain .ElseAfterElse => "ElseAfterElse"
+  | .chain .ElifAfterElse => "ElifAfterElse"
   | .cond .FailedToParseIfCondition => "FailedToParseIfCondition"
   | .cond .MacroRequiresArguments => "MacroRequiresArguments"
   | .cond .MacroArgumentsNeverEnd => "MacroArgumentsNeverEnd"
@@ -107,6 +110,7 @@ def parseDir (s : String) : Option Dir :=
   | ["I", t] => some (.incl (some [parseToks t]))
   | ["I!"] => some (.incl none)
   | ["X"] => some .unknown
+  | ["N"] => some .nonName
   | _ => none
 
 def symDir (pos : Nat) (c : Char) : Option Dir :=
@@ -257,6 +261,8 @@ def showRawErr : RsslVerif.Model.CondFile.Err → String
   | .chain .ElseNotMatched => "err ElseNotMatched"
   | .chain .EndIfNotMatched => "err EndIfNotMatched"
   | .chain .ConditionChainNotFinished => "err ConditionChainNotFinished"
+  | .chain .ElseAfterElse => "err ElseAfterElse"
+  | .chain .ElifAfterElse => "err ElifAfterElse"
   | .unknownPragma => "err UnknownPragma"
   | .includeFuel => "unsupported: include fuel"
 
